@@ -20,6 +20,8 @@ CTX = [
 CTX_WS = {"date": "2025-02-01", "field": {"memo": "two  blanks\tand tab", "type": "Wire  Fast"}, "source": "Amex  Gold"}
 # identical to CTX_WS except for the custom fields
 CTX_WS2 = {"date": "2025-02-01", "field": {"memo": "REF 5 other memo", "type": "ACH"}, "source": "Amex  Gold"}
+# identical to CTX[1] except for one custom field (same description / amount / date / source)
+CTX_TWIN = {"date": "2025-01-15", "field": {"memo": "REF 77", "type": "ACH"}, "source": "Amex"}
 AMOUNTS = [-50.0, 100.0, 100.25]
 
 
